@@ -291,28 +291,30 @@ class Repetition_print(_PostfixPrinter):
             return []
         s = a["self"]
         t = str_term(r)
-        mn = z3.IntToStr(to_term_int(s.fields["min"]))
-        if cx.ghost["bound_case"] == "open":
-            suffix = z3.Concat(z3.StringVal("{"), mn, z3.StringVal(",}"))
-            out = self.check_operand(cx, r, suffix)
-            out = [("open_bound_stays_open" if n == "operand_is_a_single_symbol" else n, f) for n, f in out]
-            return out
-        mx = z3.IntToStr(to_term_int(s.fields["_max"]))
-        exact = z3.Concat(z3.StringVal("{"), mn, z3.StringVal("}"))
-        rng = z3.Concat(z3.StringVal("{"), mn, z3.StringVal(","), mx, z3.StringVal("}"))
+        lo = to_term_int(s.fields["min"])
+        mn = z3.IntToStr(lo)
         op = cx.ghost.get("operand_printed")
         if op is None:
             return [("operand_printed_once", z3.BoolVal(False))]
+        # every postfix form that DENOTES the node's bounds is admissible (the obligation is about meaning, not about style):
+        #   {n,}  and  * for n = 0,  + for n = 1          (open upper bound)
+        #   {n,m},  {n} for n = m,  ? for (0, 1),  {,m} for n = 0     (closed)
+        lit = z3.StringVal
+        if cx.ghost["bound_case"] == "open":
+            forms = [(z3.BoolVal(True), z3.Concat(lit("{"), mn, lit(",}"))), (lo == 0, lit("*")), (lo == 1, lit("+"))]
+            name = "open_bound_stays_open_and_operand_is_a_single_symbol"
+        else:
+            hi = to_term_int(s.fields["_max"])
+            mx = z3.IntToStr(hi)
+            forms = [(z3.BoolVal(True), z3.Concat(lit("{"), mn, lit(","), mx, lit("}"))), (lo == hi, z3.Concat(lit("{"), mn, lit("}"))),
+                     (And(lo == 0, hi == 1), lit("?")), (lo == 0, z3.Concat(lit("{,"), mx, lit("}")))]
+            name = "printed_bounds_denote_min_and_max_and_operand_is_a_single_symbol"
         shapes = []
-        for suf in (exact, rng):
-            grouped = z3.Concat(z3.StringVal("("), op.term, z3.StringVal(")"), suf)
-            shapes.append(t == grouped)
+        for cond, suf in forms:
+            shapes.append(And(cond, t == z3.Concat(lit("("), op.term, lit(")"), suf)))
             if op.level == ATOM:
-                shapes.append(t == z3.Concat(op.term, suf))
-        same = to_term_int(s.fields["min"]) == to_term_int(s.fields["_max"])
-        return [("operand_is_a_single_symbol", Or(*shapes)),
-                ("exact_count_printed_once", Implies(same, Or(t == z3.Concat(z3.StringVal("("), op.term, z3.StringVal(")"), exact),
-                                                            t == z3.Concat(op.term, exact))))]
+                shapes.append(And(cond, t == z3.Concat(op.term, suf)))
+        return [(name, Or(*shapes))]
 
     def replay(self, obligation, model):
         from contracts import replay_printer
